@@ -174,7 +174,7 @@ def _node_body(self):
     if self.mode == 'probe':
         import multiprocessing
         value = value + (probe_env(),)
-    trace(f'E {name} {digest(value)}')
+    trace(f'E {name} {digest(value)} {os.getpid()}')
     return value
 
 
